@@ -442,7 +442,7 @@ const elem = `\[\(phi\(\(φ \+ 1\)\|-1\) \+ 1\)\]` // range element index
 // ---------------------------------------------------------------- C11
 
 func checkC11(w *World, r *Report) {
-	r.Explanation = "Structural clause of C11: (B-1) every Delegatee method that changes the stake list adjusts TotalPower by the same stake's Power and SelfPower when the stake is a self stake (addStake, DelStake, DelStakeByIdx), or recomputes both from the list (doSlashAll); DelAllStakes subtracts every removed power from TotalPower and each of its call sites either runs where SelfPower == 0 or deletes the delegatee; the stake list has a closed set of writers; (B-2) every stake removed by DelStake / DelAllStakes in controller code is handed to the frozen ledger on the same success path, after its refund height was set; slashing is the only removal without destination; (B-3) a stake's owner, target and key are never written after construction; (B-4) the total-power query sums TotalPower over the immutable ledger; (B-5) several operations on one delegatee inside one block see each other through the overlay, including deletion and re-creation (C18 L-1). B-4 is evaluated per request path: every successful answer to stakes/total_power comes from one unfiltered scan of the immutable delegatee ledger (sum in the callback, or every delegatee collected and the whole list summed)."
+	r.Explanation = "Structural clause of C11: (B-1) every Delegatee method that changes the stake list adjusts TotalPower by the same stake's Power and SelfPower when the stake is a self stake (addStake, DelStake, DelStakeByIdx), or recomputes both from the list (doSlashAll); DelAllStakes subtracts every removed power from TotalPower and each of its call sites either runs where SelfPower == 0 or deletes the delegatee; the stake list has a closed set of writers; (B-2) every stake removed by DelStake / DelAllStakes in controller code is handed to the frozen ledger on the same success path, after its refund height was set; slashing is the only removal without destination; (B-3) a stake's owner, target and key are never written after construction; (B-4) the total-power query sums TotalPower over the immutable ledger; (B-5) several operations on one delegatee inside one block see each other through the overlay, including deletion and re-creation (C18 L-1). B-4 is evaluated per request path: every successful answer to stakes/total_power comes from one unfiltered scan of the immutable delegatee ledger (sum in the callback, or every delegatee collected and the whole list summed). B-1 also requires that every return of DelAllStakes is dominated by the emptying store and by the loop that subtracts the removed powers and hands back the whole former list, unless the list is known to be empty there."
 	r.NotCovered = "the sums as numbers over a history; the ledger's overlay semantics (C18); JSON round-trip of delegatees."
 	b1(w, r)
 	b2(w, r)
@@ -519,6 +519,56 @@ func b1(w *World, r *Report) {
 			}
 		}
 		r.Check(st != nil && nilSt && len(w.storesTo(da, "recv.TotalPower")) == 1, "B-1", "DelAllStakes:powers", "the list is emptied and every removed stake's power leaves TotalPower", "DelAllStakes does not subtract every removed stake's power from TotalPower", fnSite(w, da))
+		// on every return: the list has been emptied, the subtraction loop has been
+		// passed and the whole former list is handed back — or the list is known empty.
+		// Its callers delete the delegatee or rely on SelfPower == 0 afterwards: a
+		// return that leaves stakes behind loses them with the delegatee.
+		{
+			var nilStore, subStore *ssa.Store
+			for _, s := range w.storesTo(da, "recv.Stakes") {
+				if c, ok := s.Val.(*ssa.Const); ok && c.IsNil() {
+					nilStore = s
+				}
+			}
+			if ss := w.storesTo(da, "recv.TotalPower"); len(ss) == 1 {
+				subStore = ss[0]
+			}
+			bad := ""
+			nRet := 0
+			for _, b := range da.Blocks {
+				ret, isR := lastInstr(b).(*ssa.Return)
+				if !isR || b == da.Recover {
+					continue
+				}
+				nRet++
+				if w.condCanonHolds(b, "(len(recv.Stakes) == 0)", 1) || w.condCanonHolds(b, "(recv.Stakes == nil)", 1) {
+					continue
+				}
+				if nilStore == nil || !instrDominates(nilStore, ret) {
+					bad = "a return at " + w.InstrPos(ret) + " is reached without emptying the list"
+					continue
+				}
+				// the loop that subtracts: its header (the closest dominator of the
+				// subtraction that ends in a branch) is passed on the way to the return
+				if subStore != nil {
+					h := subStore.Block().Idom()
+					for h != nil {
+						if _, isIf := lastInstr(h).(*ssa.If); isIf {
+							break
+						}
+						h = h.Idom()
+					}
+					if h == nil || !(h == b || h.Dominates(b)) {
+						bad = "a return at " + w.InstrPos(ret) + " is reached without passing the loop that subtracts the removed powers"
+						continue
+					}
+				}
+				if len(ret.Results) != 1 || w.Canon(ret.Results[0]) != "recv.Stakes" {
+					bad = "a return at " + w.InstrPos(ret) + " does not hand back the whole former list: " + w.Canon(ret.Results[0])
+				}
+			}
+			r.Check(bad == "" && nRet > 0, "B-1", "DelAllStakes:on-every-return", "every return of DelAllStakes has emptied the list, passed the subtraction of every removed power and hands back the whole former list (or the list is known to be empty)", "DelAllStakes can return leaving stakes bonded that its callers treat as released (they delete the delegatee, or count on SelfPower == 0): "+bad, fnSite(w, da))
+		}
 		// call sites: SelfPower == 0 or the delegatee is deleted afterwards. When the
 		// call sits in a helper that receives the delegatee as a parameter, the
 		// condition is looked for at the helper's own call sites (recursively).
